@@ -21,9 +21,15 @@ def decImpl : Sexp → Option (String × Ty × String × Ty)
   | .list [.atom "impl", .atom tr, self, .atom m, ty] => do pure (tr, ← decTy self, m, ← decTy ty)
   | _ => none
 
+def decDep : Sexp → Option (String × List Unify.StructDef)
+  | .list [.atom "dep", .atom n, .list (.atom "structs" :: ss)] => do pure (n, ← optMapM decStructDef ss)
+  | _ => none
+
 def decEnv : Sexp → Option Env
   | .list [.atom "env", .list (.atom "structs" :: ss), .list (.atom "impls" :: is)] => do
       pure { structs := ← optMapM decStructDef ss, impls := ← optMapM decImpl is }
+  | .list [.atom "env", .list (.atom "structs" :: ss), .list (.atom "impls" :: is), .list (.atom "deps" :: ds)] => do
+      pure { structs := ← optMapM decStructDef ss, impls := ← optMapM decImpl is, deps := ← optMapM decDep ds }
   | _ => none
 
 def decConstraint : Sexp → Option Constraint
